@@ -95,6 +95,10 @@ func (c *Conversation) verifySMP2(s1 *smp1State, msg smp2Message) error {
 		return newOtrError("Qb is an invalid group element")
 	}
 
+	if !isExponent(msg.d2) || !isExponent(msg.d3) || !isExponent(msg.d5) || !isExponent(msg.d6) {
+		return newOtrError("d2, d3, d5 or d6 is not a valid exponent")
+	}
+
 	if !verifyZKP(msg.d2, msg.g2b, msg.c2, 3, c.version) {
 		return newOtrError("c2 is not a valid zero knowledge proof")
 	}
